@@ -350,7 +350,8 @@ class Evaluator:
                 r = self.run(st.body if self.ev(st.test, env) else st.orelse, env)
                 if r[0] in ("return", "break", "continue"):
                     return r
-            elif isinstance(st, ast.For) and not st.orelse:
+            elif isinstance(st, ast.For):
+                broke = False
                 for item in self.ev(st.iter, env):
                     self._tick()
                     self._bind(st.target, item, env)
@@ -358,15 +359,26 @@ class Evaluator:
                     if r[0] == "return":
                         return r
                     if r[0] == "break":
+                        broke = True
                         break
-            elif isinstance(st, ast.While) and not st.orelse:
+                if st.orelse and not broke:
+                    r = self.run(st.orelse, env)
+                    if r[0] in ("return", "break", "continue"):
+                        return r
+            elif isinstance(st, ast.While):
+                broke = False
                 while self.ev(st.test, env):
                     self._tick()
                     r = self.run(st.body, env)
                     if r[0] == "return":
                         return r
                     if r[0] == "break":
+                        broke = True
                         break
+                if st.orelse and not broke:
+                    r = self.run(st.orelse, env)
+                    if r[0] in ("return", "break", "continue"):
+                        return r
             elif isinstance(st, ast.Try) and not st.finalbody:
                 try:
                     r = self.run(st.body, env)
